@@ -4,7 +4,7 @@ from cgsim import gen as G, ref
 from cgsim.core import fp, Skip, state_digest
 
 ID = "C18"
-QUICK = dict(worlds=16, runs=800, seconds=25)
+QUICK = dict(worlds=16, runs=800, seconds=15)
 THOROUGH = dict(worlds=256, runs=3000, seconds=30)
 RULE = ("seeded cyclic blackbox-free circuits (1-3 feedback edges, no self-loops, <= 3 inputs, <= 16 nodes, up to 7 feedback edges); distinct = "
         "canonical net; non-trivial = the circuit has at least one stable state and one output inside or behind a cycle")
